@@ -29,7 +29,7 @@ def cases(tier, rng):
     n = 12 if tier == "quick" else 84
     out = []
     for i in range(n):
-        T = int(rng.integers(5, 15 if tier == "quick" else 50))
+        T = int(rng.integers(10, 20 if tier == "quick" else 50))
         lossy = bool(i % 7 == 3)
         kc = ["zero", "random", "all"][i % 3] if not lossy else "all"
         out.append(
@@ -78,6 +78,13 @@ def _scene(sc):
         grid=("uniform", "uniform", "rect"),
     )
     T = sc["steps"]
+    # the first source is always on from step 0 with the default CW profile, so that the detectors see a signal and
+    # the reference gradient is not trivially zero
+    if scene["sources"]:
+        scene["sources"][0]["switch"] = None
+        scene["sources"][0]["profile"] = None
+        scene["meta"]["switch_kinds"][0] = "default"
+        scene["meta"]["profile_kinds"][0] = "default"
     if sc["ckpt_class"] == "zero":
         k = 0
     elif sc["ckpt_class"] == "all":
